@@ -128,7 +128,7 @@ def verify_unit(unit, prop, specdir, outroot, tier, budget):
     gb1 = os.path.join(outdir, "a.gb")
     gb2 = os.path.join(outdir, "b.gb")
     tdir = os.path.dirname(os.path.normpath(os.path.join(specdir, unit.template)))
-    cmd1 = ["goto-cc", "-DVX_CBMC", "-I", PRELUDE, "-I", specdir, "-I", tdir, "--function", unit.entry] + \
+    cmd1 = ["goto-cc", "-DVX_CBMC", "-I", PRELUDE, "-I", specdir, "-I", tdir, "-I", os.path.dirname(tdir), "--function", unit.entry] + \
         ["-D" + d for d in unit.defines] + [cpath, "-o", gb1]
     rc, so, se, _ = _sh(cmd1, 120)
     res["cmds"].append(" ".join(cmd1))
@@ -496,7 +496,7 @@ def replay(unit, res, specdir, outroot, prop):
                 exe = os.path.join(outdir, "replay_%d" % idx)
                 open(src, "w").write(prog)
                 tdir = os.path.dirname(os.path.normpath(os.path.join(specdir, unit.template)))
-                cmd = ["gcc", "-std=gnu11", "-O0", "-w", "-DVX_NATIVE", "-I", PRELUDE, "-I", specdir, "-I", tdir] + \
+                cmd = ["gcc", "-std=gnu11", "-O0", "-w", "-DVX_NATIVE", "-I", PRELUDE, "-I", specdir, "-I", tdir, "-I", os.path.dirname(tdir)] + \
                     ["-D" + d for d in unit.defines] + [src, "-o", exe]
                 rc, so, se, _ = _sh(cmd, 120)
                 if rc != 0:
